@@ -180,6 +180,19 @@ func loadContracts(path string) (*Contracts, error) {
 		case "smt":
 			cs.RawSMT = append(cs.RawSMT, rest)
 			cur = nil
+		case "callsonce":
+			// callsonce <name> [props]: f1, f2  -- each listed function has exactly one call through a function value, outside any loop
+			k := strings.Index(rest, ":")
+			if k < 0 {
+				return nil, fail(fmt.Errorf("callsonce needs ':'"))
+			}
+			head := strings.Fields(rest[:k])
+			rs := &ReadSet{Name: head[0], Field: "#callsonce", Allowed: splitNames(rest[k+1:]), Line: l.no}
+			for _, h := range head[1:] {
+				rs.Props = append(rs.Props, strings.Trim(h, "[],"))
+			}
+			cs.ReadSets = append(cs.ReadSets, rs)
+			cur = nil
 		case "readset":
 			// readset <name> [props]: T.f only in f1, f2, ...
 			k := strings.Index(rest, ":")
@@ -257,8 +270,8 @@ func loadContracts(path string) (*Contracts, error) {
 					cl.E = e
 					cl.Text = r3
 				}
-			case "after":
-				// after <callee>#<k> assert <expr>
+			case "after", "before":
+				// after|before <callee>#<k> assert <expr>
 				site, r2 := splitWord(rest)
 				kw, r3 := splitWord(r2)
 				if kw != "assert" {
